@@ -7,6 +7,7 @@ use std::time::{Duration, Instant};
 
 mod c05;
 mod c10;
+mod c12;
 mod c14;
 
 fn main() {
@@ -19,6 +20,7 @@ fn main() {
         "pos_allow" => c05::pos_allow(rest),
         "rl_window" => c05::rl_window(rest),
         "style_build" => c14::style_build(rest),
+        "pad_field" => c12::pad_field(rest),
         "template_total" => c10::template_total(rest),
         "template_order" => c10::template_order(rest),
         _ => format!("{{\"found\": false, \"error\": \"unknown routine {}\"}}", routine),
